@@ -22,6 +22,14 @@ ContIgnoresRange and RangeIsTheJob.  MigrillianRange.cfg checks the dimension ex
 (Hi <- HiUnclamped) must violate Bounded, i.e. the dimension tells a migrator that believes end_index from one that does
 not; replay (MigrillianSimRange.cfg) and random scenarios carry it to the real Controller / scanner.Fetcher; trace
 validation names the defect through the silent step OverrunRange + invariant Bounded.
+Signer lag is a dimension of the scenario too (cfg.lag; Integrate is a step of its own, arbitrarily later than the
+submission): continuous rounds over a growing source while the destination's root stays behind what was submitted.
+Invariant NoRepeat (ghost subm: within one run of the controller no index is submitted a second time) is checked on every
+instance, exhaustively over every schedule of the signer by MigrillianLag.cfg; MigrillianRewind.cfg
+(FirstIndex <- FirstIndexFromRoot, a migrator that takes the root for its position) must violate it; MigrillianSimLag.cfg
+and the lag scenarios of the random runs carry it to the real Controller (the harness's signer sleeps through the first
+cfg.lag root requests; vacuity guard: rounds that began with the root behind the position and new entries at the source);
+trace validation names the defect through the silent step RewindRange + invariant NoRepeat.
 """
 import json
 import os
@@ -48,6 +56,10 @@ ASSUME = [
     "continuous mode ignores start_index / end_index (ContIgnoresRange, as the configuration's comment says), a one-shot run copies the "
     "configured range only and 'no gaps' is demanded inside it (RangeIsTheJob); start_index -1 = the destination's tree size; the source "
     "may serve entries beyond the STH it announced (lagging front end, growth during the pass): up to 2 such entries",
+    "signer lag: the destination's root moves only when its signer integrates, at any later time (Trillian's sequencer); named clause "
+    "RunStartsFromRoot: 'without gaps or repeats' is demanded of one run of the controller (Controller.Run carrying its position from "
+    "round to round) - a new run after a failed pass, lost mastership or a restart of the process knows only the root and may submit "
+    "again what the signer has not integrated (answered ALREADY_EXISTS); a batch answered ResourceExhausted was not submitted",
     "sizes: source <= 4 (+2 growth), batch 1..3, fetchers/submitters 1..3, <= 2 faults exhaustively (3 in simulation and random scenarios)",
 ]
 
@@ -70,6 +82,10 @@ NAMED = {
               "(MigrillianTrace.tla: invariant NoGap, Migrillian.tla: PosCovered)"),
     "VerbatimBad": ("trace:VerbatimBad", "an unparsable entry was not copied verbatim"),
     "PrefixOK": ("trace:PrefixOK", "harness error: integrated prefix ahead of the stored leaves"),
+    "NoRepeat": ("repeat:index-submitted-twice-in-one-run",
+                 "within one run of the controller entries were fetched / submitted a second time: a later round started below the "
+                 "position the earlier rounds had reached (the destination's root, which its signer had not moved yet, taken for the "
+                 "position), or an index already submitted was submitted again (MigrillianTrace.tla: invariant NoRepeat, step RewindRange)"),
 }
 
 
@@ -86,9 +102,9 @@ def run(ctx, replay=None):
         return
     # 1. exhaustive safety + liveness of the specification
     #    (VERIF_C20_SKIP_MC=1: development aid for mutation runs, the specification does not depend on the code)
-    for cfg in [] if os.environ.get("VERIF_C20_SKIP_MC") == "1" else ctx.pick(["MigrillianWide.cfg", "MigrillianGrow.cfg", "MigrillianDeep.cfg", "MigrillianPages.cfg", "MigrillianRange.cfg"],
+    for cfg in [] if os.environ.get("VERIF_C20_SKIP_MC") == "1" else ctx.pick(["MigrillianWide.cfg", "MigrillianGrow.cfg", "MigrillianDeep.cfg", "MigrillianPages.cfg", "MigrillianRange.cfg", "MigrillianLag.cfg"],
                                                                                    ["Migrillian.cfg", "MigrillianDeep6.cfg", "MigrillianWide2.cfg", "MigrillianDeep2.cfg", "MigrillianPagesGrow.cfg",
-                                                                                    "MigrillianRangeFull.cfg"]):
+                                                                                    "MigrillianRangeFull.cfg", "MigrillianLagFull.cfg"]):
         ctx.tlc("migrate", "MCMigrillian", cfg, workers=WORKERS, timeout=5400)
     if os.environ.get("VERIF_C20_SKIP_MC") != "1":
         ctx.tlc("migrate", "MCMigrillian", ctx.pick("MigrillianLiveSmall.cfg", "MigrillianLive.cfg"), workers=WORKERS, timeout=5400)
@@ -97,8 +113,25 @@ def run(ctx, replay=None):
         if r.violated != "Bounded":
             raise Infra("MigrillianNoClamp.cfg (Hi <- HiUnclamped) does not violate Bounded (violated=%s rc=%d): the configured-range "
                         "dimension of the specification does not distinguish a migrator that runs beyond the verified STH" % (r.violated, r.rc))
+        rewind_refuted(ctx)
         ctx.exhaustive = True
     conformance(ctx)
+
+
+def rewind_refuted(ctx):
+    """the signer-lag dimension is not idle: a migrator that takes the destination's root for its position must break
+    NoRepeat on the model"""
+    r = ctx.tlc("migrate", "MCMigrillian", "MigrillianRewind.cfg", workers=2, timeout=1800, expect_violation=True, count=False)
+    if r.violated != "NoRepeat":
+        raise Infra("MigrillianRewind.cfg (FirstIndex <- FirstIndexFromRoot) does not violate NoRepeat (violated=%s rc=%d): the signer-lag "
+                    "dimension of the specification does not distinguish a migrator that starts a round from the lagging root" % (r.violated, r.rc))
+
+
+def lag_model(ctx):
+    """C16's share of the model: signer lag x growth between continuous rounds, exhaustively (NoRepeat + PosCovered = every
+    index submitted exactly once across the rounds of a run), and the refutation instance."""
+    ctx.tlc("migrate", "MCMigrillian", ctx.pick("MigrillianLag.cfg", "MigrillianLagFull.cfg"), workers=WORKERS, timeout=5400)
+    rewind_refuted(ctx)
 
 
 def conformance(ctx, f=1.0):
@@ -111,7 +144,8 @@ def conformance(ctx, f=1.0):
     # 2. spec -> code: simulated behaviours as fault schedules
     behs = []
     for cfg, num in (("MigrillianSim.cfg", n(400, 4000)), ("MigrillianSimBenign.cfg", n(400, 4000)),
-                     ("MigrillianSimPages.cfg", n(200, 2000)), ("MigrillianSimRange.cfg", n(300, 3000))):
+                     ("MigrillianSimPages.cfg", n(200, 2000)), ("MigrillianSimRange.cfg", n(300, 3000)),
+                     ("MigrillianSimLag.cfg", n(300, 3000))):
         r = ctx.tlc("migrate", "SimMigrillian", cfg, simulate=num, depth=300, count=False, timeout=3000)
         b = r.records.get("BEH", [])
         if not b:
@@ -129,12 +163,14 @@ def conformance(ctx, f=1.0):
                                   timeout=3000, name="c20replay")
     need_empty_pages(reps, "replay")
     need_range(reps, "replay")
+    need_lag(reps, "replay")
     validate(ctx, os.path.join(outdir, "replay-traces.ndjson"), None, "replay")
     # 3. code -> spec: random scenarios, traces validated with all invariants on
     _, outdir, reps = ctx.go_test("vt/c20", run="TestTrace$", env={"VERIF_TRACES": n(150, 1500)}, toolchain="go1.26", race=True,
                                   timeout=3000, name="c20trace")
     need_empty_pages(reps, "trace")
     need_range(reps, "trace")
+    need_lag(reps, "trace")
     tr = os.path.join(outdir, "traces.ndjson")
     if not os.path.exists(tr) or os.path.getsize(tr) == 0:
         raise Infra("no trace recorded")
@@ -174,6 +210,15 @@ def need_range(reps, label):
     if reps and n == 0:
         raise Infra("no pass with end_index beyond the STH on a source serving beyond its STH in the %s runs: the configured-range "
                     "dimension was not exercised" % label)
+
+
+def need_lag(reps, label):
+    """vacuity guard: continuous rounds that began with the destination's root behind the position the earlier rounds of the
+    run had reached, on a source that had grown beyond that position, must have reached the real Controller"""
+    n = sum((rep.get("extra") or {}).get("rounds_root_behind_position_source_grown", 0) for rep in reps)
+    if reps and n < 3:
+        raise Infra("only %d continuous rounds began with the root behind the run's position and new entries at the source in the %s "
+                    "runs: the signer-lag dimension was not exercised" % (n, label))
 
 
 def run_trace(ctx, path, label):
